@@ -1,5 +1,5 @@
 """C04 - fluxes non-negative, actual never exceeds potential (kind B, exploration)."""
-from .common import std_case, std_run, hardpan_regime, HARDPAN_PROFILE, STATE_MEASURE  # noqa: F401
+from .common import shallow_pond_regime, SHALLOW_POND_PROFILE, std_case, std_run, hardpan_regime, HARDPAN_PROFILE, STATE_MEASURE  # noqa: F401
 from ..monitors import mon_c04
 from ..domain import HIGH_CCX_CROPS, CROPS
 
@@ -16,6 +16,9 @@ PROFILE = {"reactive_p": 0.3, "crops": HIGH_CCX_CROPS * 3 + CROPS, "irr_methods"
 
 
 def gen_case(rng, tier, idx):
+    if idx % 8 == 7:
+        # a series of storms each leaving a pond of a few millimetres behind empty bunds under a stressed canopy
+        return shallow_pond_regime(rng, std_case(rng, dict(PROFILE, **SHALLOW_POND_PROFILE)))
     prof = PROFILE
     if idx % 4 == 1:
         # ponded + mulched fields on slowly draining soils: small ponds that evaporation (not infiltration) exhausts,
